@@ -502,10 +502,17 @@ func (obj *Package) Define(creator func(args List) Object, doc *FuncDoc, aux ...
 	if obj.funcs == nil {
 		obj.funcs = map[string]*FuncInfo{}
 	}
-	if _, has := obj.funcs[name]; has {
+	if old, has := obj.funcs[name]; has && old.Doc != nil {
 		Warn("redefining %s", printer.caseName(name))
 	}
 	obj.funcs[name] = &fi
+	if lc := obj.lambdas[name]; lc != nil && len(lc.Forms) == 1 {
+		if _, undefined := lc.Forms[0].(Undefined); undefined {
+			// Calls compiled before the function existed run this stand
+			// in, it hands its arguments on to the function now defined.
+			lc.Forms = List{List{Symbol("apply"), List{Symbol("function"), Symbol(name)}, Symbol("args")}}
+		}
+	}
 	for _, pkg := range obj.Users {
 		pkg.mu.Lock()
 		pkg.funcs[name] = &fi
